@@ -24,6 +24,6 @@ CONSTANTS
   Defect_StaleSnapshotTail = FALSE
   Defect_NonAtomicCapture = FALSE
 VIEW View
-INVARIANTS LiveIsFold SnapshotsExact ImportRebuildsAllButNamespaces
+INVARIANTS LiveIsFold SnapshotsExact ImportRebuildsAll
 PROPERTIES RestartExact
 CHECK_DEADLOCK FALSE
